@@ -124,9 +124,9 @@ def n1_common(text):
 
 
 def n2_log(text):
-    """N2: os.Exit(1) in the Panic* helpers -> recoverable panic."""
+    """N2: os.Exit(1) in the Panic* helpers -> recoverable panic (hooks/pkg/libs/log/verif_exit.go: verifExit)."""
     n = text.count("os.Exit(1)")
-    return text.replace("os.Exit(1)", "panic(VerifExit{})"), n
+    return text.replace("os.Exit(1)", "verifExit()"), n
 
 
 def make_overlay(scale=None):
